@@ -12,6 +12,10 @@ def _feat(areas, regs):
         f["W_MULTI"] = None
     if any(w == 4 for _, w in regs):
         f["W_W4"] = None
+    mapped = set(a for (b, sz) in areas for a in range(b, b + sz))
+    # a block of two words that starts inside a multi-word register and is mapped completely
+    if any(w >= 2 and (a + 1) in mapped and (a + 2) in mapped for a, w in regs):
+        f["W_INSIDE2"] = None
     if any(areas[i][0] + areas[i][1] == areas[i + 1][0] for i in range(len(areas) - 1)):
         f["W_ADJ"] = None
     if len(areas) >= 2:
